@@ -2,11 +2,12 @@
 """Behaviour-preserving refactorings (written by sub-agents that saw nothing of /verif) vs. the checks:
 a check may answer 0 (still proved) or 2 (undecided) but must never raise an alarm (exit 1)."""
 import json, os, re, shutil, subprocess, sys, time
-ROOT = '/verif'
+ROOT = os.environ.get('VERIF_ROOT') or '/verif'
+REPO = os.environ.get('VERIF_REPO') or '/repo'
 # evidence files are rewritten by every check run: keep the clean-tree ones (evidence_backup) and put them back at the end
 if os.path.isdir(f'{ROOT}/evidence'):
-    shutil.rmtree('/tmp/evidence_backup', ignore_errors=True); shutil.copytree(f'{ROOT}/evidence', '/tmp/evidence_backup')
-PROPS = {'suggestion.rs': ['C03'], 'lib.rs': ['C13'], 'lexing': ['C01', 'C02'], 'plain_english': ['C01', 'C02'], 'edit_distance': ['C15', 'C01'], 'span.rs': ['C01', 'C03'],
+    shutil.rmtree(f'/tmp/evidence_backup{os.getpid()}', ignore_errors=True); shutil.copytree(f'{ROOT}/evidence', f'/tmp/evidence_backup{os.getpid()}')
+PROPS = {'vec_ext': ['C13', 'C02'], 'suggestion.rs': ['C03'], 'lib.rs': ['C13'], 'lexing': ['C01', 'C02'], 'plain_english': ['C01', 'C02'], 'edit_distance': ['C15', 'C01'], 'span.rs': ['C01', 'C03'],
          'number.rs': ['C17', 'C02'], 'patterns': ['C01', 'C03'], 'pattern_linter': ['C01', 'C03'], 'document.rs': ['C02', 'C01'], 'merged_dictionary': ['C15'], 'mask': ['C02', 'C01'],
          'pos_conv': ['C08'], 'jsdoc': ['C01'], 'currency.rs': ['C02', 'C13', 'C01'], 'correct_number_suffix': ['C17', 'C03'], 'mutable_dictionary': ['C15'],
          'diagnostics.rs': ['C08'], 'ellipsis_length': ['C03'], 'document_state': ['C08'],
@@ -26,8 +27,8 @@ for rid in sorted(os.listdir(base)):
         for key, ps in PROPS.items():
             if key in f:
                 props += [p for p in ps if p not in props]
-    assert subprocess.run(['git', '-C', '/repo', 'diff', '--quiet']).returncode == 0, '/repo not clean'
-    if subprocess.run(['git', '-C', '/repo', 'apply', f'{d}/patch.diff']).returncode != 0:
+    assert subprocess.run(['git', '-C', REPO, 'diff', '--quiet']).returncode == 0, '/repo not clean'
+    if subprocess.run(['git', '-C', REPO, 'apply', f'{d}/patch.diff']).returncode != 0:
         rows.append((rid, ','.join(files), 'patch does not apply', '')); continue
     res = {}
     try:
@@ -35,7 +36,7 @@ for rid in sorted(os.listdir(base)):
             r = subprocess.run(['./check', p], cwd=ROOT, capture_output=True, text=True, timeout=3600)
             res[p] = {'exit': r.returncode, 'lines': [l for l in (r.stdout + r.stderr).splitlines() if l.startswith(('VIOLATION', 'UNDECIDED', '  failed', 'OK '))][:6]}
     finally:
-        subprocess.run(['git', '-C', '/repo', 'checkout', '--', '.'])
+        subprocess.run(['git', '-C', REPO, 'checkout', '--', '.'])
     json.dump({'refactoring': rid, 'files': files, 'results': res}, open(f'{d}/result.json', 'w'), indent=1)
     rows.append((rid, ','.join(files), ' '.join(f'{p}:{v["exit"]}' for p, v in res.items()), 'FALSE ALARM' if any(v['exit'] == 1 for v in res.values()) else 'ok'))
     print(rows[-1], flush=True)
@@ -50,5 +51,5 @@ with open(f'{base}/RESULTS.md', 'w') as f:
     for r in allrows:
         f.write('| ' + ' | '.join(r) + ' |\n')
 
-if os.path.isdir('/tmp/evidence_backup'):
-    shutil.rmtree(f'{ROOT}/evidence', ignore_errors=True); shutil.copytree('/tmp/evidence_backup', f'{ROOT}/evidence')
+if os.path.isdir(f'/tmp/evidence_backup{os.getpid()}'):
+    shutil.rmtree(f'{ROOT}/evidence', ignore_errors=True); shutil.copytree(f'/tmp/evidence_backup{os.getpid()}', f'{ROOT}/evidence')
